@@ -411,6 +411,8 @@ class QasmVisitor:
                     )
                 else:
                     bit_id = Qasm3ExprEvaluator.evaluate_expression(bit.indices[0][0])[0]
+                    if isinstance(bit_id, (bool, np.bool_, np.integer)):
+                        bit_id = int(bit_id)  # the index literal that is emitted is an integer
                     Qasm3Validator.validate_register_index(
                         bit_id, reg_size_map[reg_name], qubit=qubits
                     )
